@@ -418,7 +418,7 @@ func genRequest(r *rand.Rand, g *group, tcp bool) (*Case, int) {
 
 func run(m *mon.M) {
 	r := m.Rand("groups")
-	ngroups := m.N(40, 330)
+	ngroups := m.N(60, 1000)
 	perGroup := 190
 	tcpEvery := m.N(20, 13) // every n-th group also sends requests over a loopback server
 	tcpPer := m.N(30, 50)
